@@ -757,6 +757,15 @@ def fam_race(rng, n):
                         {"op": "burst", "items": hbs()}, {"op": "sleep", "ms": 400}, {"op": "burst", "items": hbs()},
                         {"op": "quiesce", "ms": 800}]
     out.append({"name": "race/sr_renewal", "conf": conf(sr_enable=True), "endpoints": customs(k), "steps": steps})
+    # the cleaner's second tick (60 s) finds an entry to remove (a vehicle heard once, then silent) while another channel
+    # keeps looking senders up: one vehicle on channel 0 at the start, another on channel 1 at 10 Hz for 62 s
+    t = Tags(395000)
+    steps = opens(2) + [feed(0, "hb", t.next(), sys=1, comp=1, autopilot=3)]
+    for j in range(620):
+        steps.append({"op": "burst", "items": [{"ep": 1, "item": {"kind": "hb", "tag": t.next(), "sys": 2, "comp": 1, "autopilot": 3}}]})
+        steps.append({"op": "sleep", "ms": 100})
+    steps.append({"op": "quiesce", "ms": 500})
+    out.append({"name": "race/sr_cleaner_removes_a_silent_sender", "conf": conf(sr_enable=True), "endpoints": customs(2), "steps": steps})
     return out
 
 
